@@ -1,3 +1,101 @@
-(* C03 — receiver containment (theorems added below as they are proved). *)
-From Coq Require Import List NArith Bool.
-From FS Require Import Sx Model.Path Model.Fs.
+(* C03 — receiver containment: an untrusted sender cannot touch anything outside dest.
+   This file contains only the property theorems (closed by [exact]), their [Print Assumptions]
+   and non-vacuity examples closed by [vm_compute]; models are in Model/ (Fs.v: the file system,
+   DiskWriterFs.v: DiskWriter.HandleChange and the receive loop as sequences of system calls),
+   proofs in Proofs/ (FsP FsReachP FsFrameP FsSysP FsTreeP DwP RecvP FsWfP C03P).
+
+   FULL STATEMENT (DESIGN section 4), not yet proved in this generality:
+     receiver_contained : forall f root D dl merge tmps pks j,
+       wf D f -> temporary names unused and no path component of the stream ->
+       outside_unchanged D f (recv_fs_prefix f root D dl merge tmps pks j)
+   Proved below for merge = true (ReceiveOpt.Merge: the old content of the destination is not
+   walked, every entry of the stream goes to the disk writer, nothing is deleted): for every
+   hostile packet list, every pre-existing destination (symlinks to anywhere, hard links shared
+   with the outside, special files, ...), every prefix j of the effects.  The case merge = false
+   additionally needs the invariant of the old listing (entries not yet passed are untouched,
+   entries below a replaced directory are skipped); see props/C03.json unproved_statements. *)
+From Coq Require Import List NArith Bool String Ascii.
+From FS Require Import Sx Model.Path Model.Stat Model.Validator Model.Fs Model.DiskWriterFs.
+From FS Require Import Proofs.FsP Proofs.FsReachP Proofs.RecvP Proofs.FsWfP Proofs.C03P.
+Import ListNotations.
+Open Scope N_scope.
+
+(* [outside_unchanged D f f']: every inode that existed in f and is not a directory inside D has
+   the same record in f' (type, entries / bytes / link target, mode, uid, gid, mtime, xattrs);
+   D itself is still a directory with the same parent, mode, uid, gid, xattrs.  Hence every
+   directory entry and inode outside D — D's own entry in its parent included — is as before,
+   also for inodes that have a second name inside D.  (Link count and ctime are not part of the
+   model's inode record: the correspondence oracle compares them too, except for inodes that
+   had a name inside D before the run.)
+   Hypotheses: [wf D f] — the part of f inside D is a well-formed tree (names are single
+   non-empty components other than "." / "..", unique per directory; one entry per directory
+   inode; D is a directory and not its own descendant; allocation counter above all inode
+   numbers) — the temporary names ".tmp.<n>" the writer may use are well-formed, not in use
+   inside D and never a component of a path the sender names. *)
+Theorem receiver_contained_partial :
+  forall (f : fs) (root D : N) (dl : bool) (tmps : list bytes) (pks : list packet) (j : nat),
+    wf D f -> (forall t, tmpname tmps t -> okname t) -> tmp_unused D f tmps ->
+    Forall (clean_packet tmps) pks ->
+    outside_unchanged D f (recv_fs_prefix f root D dl true tmps pks j).
+Proof. exact receiver_contained_merge. Qed.
+
+Print Assumptions receiver_contained_partial.
+
+(* ---- non-vacuity: a hostile destination and a hostile stream inside the hypotheses ---- *)
+Fixpoint bs (s : string) : bytes :=
+  match s with EmptyString => [] | String a r => N_of_ascii a :: bs r end.
+
+Definition run1 (x : fs * result) : fs := fst x.
+(* /out/f "O:f" ; /w/dest with l -> /out (symlink), m -> ../../out/f (symlink), a (file) *)
+Definition ex_fs : fs :=
+  let c := ctx_init in
+  let f := run1 (sys_mkdir c fs_init (bs "/out") 493) in
+  let f := match sys_open_wronly c f (bs "/out/f") true 420 with
+           | (g, RFd i) => run1 (fd_pwrite g i 0 (bs "O:f")) | (g, _) => g end in
+  let f := run1 (sys_mkdir c f (bs "/w") 493) in
+  let f := run1 (sys_mkdir c f (bs "/w/dest") 493) in
+  let f := run1 (sys_symlink c f (bs "/out") (bs "/w/dest/l")) in
+  let f := run1 (sys_symlink c f (bs "../../out/f") (bs "/w/dest/m")) in
+  let f := match sys_open_wronly c f (bs "/w/dest/a") true 384 with
+           | (g, RFd i) => run1 (fd_pwrite g i 0 (bs "D:a")) | (g, _) => g end in
+  f.
+Definition ex_D : N := match resolve_ino ctx_init ex_fs (bs "/w/dest") true with inl i => i | inr _ => 0 end.
+
+Definition mkst (p : string) (mode : N) (ln : string) (xs : list (bytes * bytes)) : stat :=
+  {| st_path := bs p; st_mode := mode; st_uid := 1000; st_gid := 1000; st_size := 0; st_mtime := 1000000;
+     st_linkname := bs ln; st_devmajor := 0; st_devminor := 0; st_xattrs := xs |}.
+Definition ex_pks : list packet :=
+  [ PStat (Some (mkst "l" (ModeDir + 493) "" []));              (* the symlink l becomes a directory ... *)
+    PStat (Some (mkst "l/g" 420 "" []));                          (* ... with a file in it *)
+    PData 1 (bs "new"); PData 1 [];
+    PStat (Some (mkst "m" (ModeSymlink + 511) "/out/f" [(bs "user.x", bs "X")]));  (* symlink with xattrs *)
+    PStat (Some (mkst "n" 511 "l/g" []));                         (* hard link to an entry sent before *)
+    PStat (Some (mkst ".." (ModeDir + 493) "" [])) ].            (* and an escaping path: rejected *)
+
+Definition ex_run : rstate := recv_fs ex_fs 1 ex_D false true [] ex_pks.
+
+(* the hypotheses of the theorem hold for this case *)
+Example example_in_domain : ex_D = 5 /\ domain_b 8 ex_fs ex_D [] ex_pks = true.
+Proof. vm_compute. split; reflexivity. Qed.
+
+(* the stream is rejected at the escaping path (packet 6), after the six effects of the first six packets *)
+Example example_rejected : r_out ex_run = Failed 6 /\ r_applied ex_run = 6%nat.
+Proof. vm_compute. split; reflexivity. Qed.
+
+(* inside: l is now a directory holding g with the bytes sent, m names /out/f, n is a second name of g *)
+Example example_inside_changed :
+  let f' := r_fs ex_run in
+  (match rwalk f' ex_D [bs "l"; bs "g"] with
+   | Some i => match get f' i with Some {| i_kind := KFile d |} => Some d | _ => None end
+   | None => None end) = Some (bs "new")
+  /\ rwalk f' ex_D [bs "n"] = rwalk f' ex_D [bs "l"; bs "g"]
+  /\ (match rwalk f' ex_D [bs "m"] with
+      | Some i => match get f' i with Some {| i_kind := KLink t |} => Some t | _ => None end
+      | None => None end) = Some (bs "/out/f").
+Proof. vm_compute. repeat split; reflexivity. Qed.
+
+(* outside: the records of /, /out, /out/f and /w are exactly as before *)
+Example example_outside_same :
+  map (get (r_fs ex_run)) [1; 2; 3; 4] = map (get ex_fs) [1; 2; 3; 4]
+  /\ (match get ex_fs 3 with Some {| i_kind := KFile d |} => Some d | _ => None end) = Some (bs "O:f").
+Proof. vm_compute. split; reflexivity. Qed.
